@@ -3,6 +3,7 @@ pub proof fn lemma_stuck(v: NfaV, cls: ClsF, p: VPath)
     requires is_path(v, cls, p), 0 <= p.nodes[0] < v.states.len() ==> (v.states[p.nodes[0]].eps.len() == 0 && v.states[p.nodes[0]].trans.len() == 0)
     ensures p.labs.len() == 0
 {
+    reveal(edges_ok);
     if p.labs.len() > 0 { assert(v_edge(v, cls, p.nodes[0], p.labs[0], p.nodes[1])); }
 }
 pub proof fn lemma_shift0(s: StateV)
@@ -55,7 +56,7 @@ pub proof fn lemma_lang_leaf(id: int, cls: ClsF, w: Seq<char>)
     if v_accepts(v, cls, w) {
         let p = choose|p: VPath| #[trigger] path_from_to(v, cls, p, 0, 1, w);
         assert(p.labs.len() > 0);
-        assert(v_edge(v, cls, p.nodes[0], p.labs[0], p.nodes[1]));
+        lemma_step(v, cls, p);
         assert(p.labs[0] is Some);
         let c = p.labs[0]->0;
         assert(p.nodes[1] == 1 && cls(CharClassID(id as u32), c));
@@ -100,7 +101,7 @@ pub proof fn lemma_lang_opt(a: NfaV, cls: ClsF, w: Seq<char>)
     if v_accepts(v, cls, w) {
         let p = choose|p: VPath| #[trigger] path_from_to(v, cls, p, s, a.end, w);
         assert(p.labs.len() > 0);
-        assert(v_edge(v, cls, p.nodes[0], p.labs[0], p.nodes[1]));
+        lemma_step(v, cls, p);
         assert(p.labs[0] is None);
         let t = p.nodes[1];
         assert(t == a.start || t == a.end);
@@ -141,6 +142,7 @@ pub proof fn lemma_step(v: NfaV, cls: ClsF, p: VPath)
         path_skip(p, 1).labs.len() == p.labs.len() - 1,
         labs_word(p.labs) == lab_word(p.labs[0]) + labs_word(path_skip(p, 1).labs),
 {
+    reveal(edges_ok);
     lemma_path_split(v, cls, p, 1);
     assert(path_take(p, 1).labs =~= seq![p.labs[0]]);
     lemma_labs_word_one(p.labs[0]);
@@ -379,5 +381,223 @@ pub proof fn lemma_lang_concat(a: NfaV, b: NfaV, cls: ClsF, w: Seq<char>)
         lemma_concat_shape(a, b);
         if v_accepts(v_concat(a, b), cls, w) { lemma_lang_concat_fwd(a, b, cls, w); }
         if cat_accepts(a, b, cls, w) { lemma_lang_concat_bwd(a, b, cls, w); }
+    }
+}
+
+// ---- iteration: a+ and a*
+pub open spec fn splits(w: Seq<char>, u: Seq<char>, x: Seq<char>) -> bool { w == u + x }
+/// w is the concatenation of k words accepted by a
+pub open spec fn pow_accepts(a: NfaV, cls: ClsF, k: nat, w: Seq<char>) -> bool
+    decreases k
+{
+    if k == 0 { w.len() == 0 } else {
+        exists|u: Seq<char>, x: Seq<char>| #[trigger] splits(w, u, x) && v_accepts(a, cls, u) && pow_accepts(a, cls, (k - 1) as nat, x)
+    }
+}
+/// what a+ and a* share: a sits at offset 0, its end has exactly the edges eps -> E (fresh, stuck, outside the copy) and eps -> a.start
+pub open spec fn loop_shape(v: NfaV, a: NfaV, e: int) -> bool {
+    &&& embeds(v, a, 0) && nice(a) && a.states.len() <= e < v.states.len()
+    &&& v.states[e].eps.len() == 0 && v.states[e].trans.len() == 0
+    &&& v.states[a.end].eps == seq![e, a.start] && v.states[a.end].trans.len() == 0
+}
+pub proof fn lemma_pow_cons(a: NfaV, cls: ClsF, k: nat, u: Seq<char>, x: Seq<char>)
+    requires v_accepts(a, cls, u), pow_accepts(a, cls, k, x)
+    ensures pow_accepts(a, cls, k + 1, u + x)
+{
+    assert(splits(u + x, u, x));
+    assert(pow_accepts(a, cls, ((k + 1) - 1) as nat, x));
+}
+/// the part of a run from a.start to E up to and including the edge that leaves a's end
+pub proof fn lemma_loop_head(v: NfaV, a: NfaV, e: int, cls: ClsF, q: VPath) -> (j: int)
+    requires loop_shape(v, a, e), is_path(v, cls, q), q.nodes[0] == a.start, q.nodes.last() == e
+    ensures
+        1 <= j < q.nodes.len(), q.nodes[j] == e || q.nodes[j] == a.start,
+        v_accepts(a, cls, labs_word(q.labs.take(j))),
+        is_path(v, cls, path_skip(q, j)), labs_word(q.labs) == labs_word(q.labs.take(j)) + labs_word(path_skip(q, j).labs),
+        path_skip(q, j).labs.len() == q.labs.len() - j,
+        path_skip(q, j).nodes[0] == q.nodes[j], path_skip(q, j).nodes.last() == e,
+{
+    let i = lemma_project(v, a, 0, cls, q);
+    lemma_path_split(v, cls, q, i);
+    let r = path_skip(q, i);
+    assert(q.nodes[i] == a.end);
+    lemma_path_len(v, cls, q);
+    lemma_path_len(v, cls, r);
+    assert(r.labs.len() > 0);
+    lemma_step(v, cls, r);
+    assert(r.labs[0] is None);
+    assert(r.nodes[1] == q.nodes[i + 1]);
+    lemma_path_split(v, cls, q, i + 1);
+    assert(q.labs.take(i + 1) =~= q.labs.take(i) + seq![q.labs[i]]);
+    lemma_labs_word_concat(q.labs.take(i), seq![q.labs[i]]);
+    lemma_labs_word_one(q.labs[i]);
+    assert(q.labs[i] == r.labs[0]);
+    assert(labs_word(q.labs.take(i + 1)) =~= labs_word(q.labs.take(i)));
+    i + 1
+}
+pub proof fn lemma_loop_fwd(v: NfaV, a: NfaV, e: int, cls: ClsF, q: VPath) -> (k: nat)
+    requires loop_shape(v, a, e), is_path(v, cls, q), q.nodes[0] == a.start, q.nodes.last() == e
+    ensures k >= 1, pow_accepts(a, cls, k, labs_word(q.labs))
+    decreases q.labs.len()
+{
+    let j = lemma_loop_head(v, a, e, cls, q);
+    let q2 = path_skip(q, j);
+    let w1 = labs_word(q.labs.take(j));
+    if q.nodes[j] == e {
+        lemma_stuck(v, cls, q2);
+        assert(labs_word(q2.labs) =~= Seq::<char>::empty());
+        assert(pow_accepts(a, cls, 0, labs_word(q2.labs)));
+        lemma_pow_cons(a, cls, 0, w1, labs_word(q2.labs));
+        1
+    } else {
+        let k2 = lemma_loop_fwd(v, a, e, cls, q2);
+        lemma_pow_cons(a, cls, k2, w1, labs_word(q2.labs));
+        k2 + 1
+    }
+}
+pub proof fn lemma_loop_bwd(v: NfaV, a: NfaV, e: int, cls: ClsF, k: nat, w: Seq<char>)
+    requires loop_shape(v, a, e), k >= 1, pow_accepts(a, cls, k, w)
+    ensures v_lang(v, cls, a.start, e, w)
+    decreases k
+{
+    let (u, x) = choose|u: Seq<char>, x: Seq<char>| #[trigger] splits(w, u, x) && v_accepts(a, cls, u) && pow_accepts(a, cls, (k - 1) as nat, x);
+    lemma_embed_lang(v, a, 0, cls, a.start, a.end, u);
+    if k == 1 {
+        assert(v.states[a.end].eps[0] == e);
+        assert(v_edge(v, cls, a.end, None, e));
+        lemma_lang_edge(v, cls, a.end, None, e);
+        lemma_lang_cat(v, cls, a.start, a.end, e, u, lab_word(None));
+        assert(u + lab_word(None) =~= w);
+    } else {
+        assert(v.states[a.end].eps[1] == a.start);
+        assert(v_edge(v, cls, a.end, None, a.start));
+        lemma_lang_edge(v, cls, a.end, None, a.start);
+        lemma_loop_bwd(v, a, e, cls, (k - 1) as nat, x);
+        lemma_lang_cat(v, cls, a.start, a.end, a.start, u, lab_word(None));
+        lemma_lang_cat(v, cls, a.start, a.start, e, u + lab_word(None), x);
+        assert(u + lab_word(None) + x =~= w);
+    }
+}
+pub proof fn lemma_plus_shape(a: NfaV)
+    requires nice(a)
+    ensures ({
+        let v = v_plus(a);
+        let s = a.states.len() as int;
+        &&& nice(v) && v.states.len() == s + 2 && v.start == s && v.end == s + 1 && loop_shape(v, a, s + 1)
+        &&& v.states[s].eps == seq![a.start] && v.states[s].trans.len() == 0
+    })
+{
+    let v = v_plus(a);
+    let s = a.states.len() as int;
+    lemma_plus_wf(a);
+    assert(v.states[s].eps =~= seq![a.start]);
+    assert(v.states[a.end].eps =~= seq![s + 1, a.start]);
+    assert forall|j: int| 0 <= j < s implies (#[trigger] v.states[j]).trans == a.states[j].trans by { }
+    assert forall|j: int| 0 <= j < s && j != a.end implies (#[trigger] v.states[j]).eps == a.states[j].eps by { }
+    lemma_embeds0(v, a);
+}
+pub proof fn lemma_star_shape(a: NfaV)
+    requires nice(a)
+    ensures ({
+        let v = v_star(a);
+        let s = a.states.len() as int;
+        &&& nice(v) && v.states.len() == s + 2 && v.start == s && v.end == s + 1 && loop_shape(v, a, s + 1)
+        &&& v.states[s].eps == seq![a.start, a.end] && v.states[s].trans.len() == 0
+    })
+{
+    let v = v_star(a);
+    let s = a.states.len() as int;
+    lemma_star_wf(a);
+    assert(v.states[s].eps =~= seq![a.start, a.end]);
+    assert(v.states[a.end].eps =~= seq![s + 1, a.start]);
+    assert forall|j: int| 0 <= j < s implies (#[trigger] v.states[j]).trans == a.states[j].trans by { }
+    assert forall|j: int| 0 <= j < s && j != a.end implies (#[trigger] v.states[j]).eps == a.states[j].eps by { }
+    lemma_embeds0(v, a);
+}
+pub proof fn lemma_lang_plus(a: NfaV, cls: ClsF, w: Seq<char>)
+    requires nice(a)
+    ensures v_accepts(v_plus(a), cls, w) <==> exists|k: nat| k >= 1 && #[trigger] pow_accepts(a, cls, k, w)
+{
+    let v = v_plus(a);
+    let s = a.states.len() as int;
+    let e = s + 1;
+    lemma_plus_shape(a);
+    if v_accepts(v, cls, w) {
+        let p = choose|p: VPath| #[trigger] path_from_to(v, cls, p, s, e, w);
+        assert(p.labs.len() > 0);
+        lemma_step(v, cls, p);
+        assert(p.labs[0] is None && p.nodes[1] == a.start);
+        let q = path_skip(p, 1);
+        assert(labs_word(q.labs) =~= w);
+        let k = lemma_loop_fwd(v, a, e, cls, q);
+        assert(k >= 1 && pow_accepts(a, cls, k, w));
+    }
+    if exists|k: nat| k >= 1 && #[trigger] pow_accepts(a, cls, k, w) {
+        let k = choose|k: nat| k >= 1 && #[trigger] pow_accepts(a, cls, k, w);
+        lemma_loop_bwd(v, a, e, cls, k, w);
+        assert(v.states[s].eps[0] == a.start);
+        assert(v_edge(v, cls, s, None, a.start));
+        lemma_lang_edge(v, cls, s, None, a.start);
+        lemma_lang_cat(v, cls, s, a.start, e, lab_word(None), w);
+        assert(lab_word(None) + w =~= w);
+    }
+}
+pub proof fn lemma_lang_star(a: NfaV, cls: ClsF, w: Seq<char>)
+    requires nice(a)
+    ensures v_accepts(v_star(a), cls, w) <==> exists|k: nat| #[trigger] pow_accepts(a, cls, k, w)
+{
+    let v = v_star(a);
+    let s = a.states.len() as int;
+    let e = s + 1;
+    lemma_star_shape(a);
+    if v_accepts(v, cls, w) {
+        let p = choose|p: VPath| #[trigger] path_from_to(v, cls, p, s, e, w);
+        assert(p.labs.len() > 0);
+        lemma_step(v, cls, p);
+        assert(p.labs[0] is None);
+        let t = p.nodes[1];
+        assert(t == a.start || t == a.end);
+        let q = path_skip(p, 1);
+        assert(labs_word(q.labs) =~= w);
+        if t == a.start {
+            let k = lemma_loop_fwd(v, a, e, cls, q);
+            assert(pow_accepts(a, cls, k, w));
+        } else {
+            assert(q.labs.len() > 0);
+            lemma_step(v, cls, q);
+            assert(q.labs[0] is None);
+            let t2 = q.nodes[1];
+            assert(t2 == e || t2 == a.start);
+            let q2 = path_skip(q, 1);
+            assert(labs_word(q2.labs) =~= w);
+            if t2 == e {
+                lemma_stuck(v, cls, q2);
+                assert(w =~= Seq::<char>::empty());
+                assert(pow_accepts(a, cls, 0, w));
+            } else {
+                let k = lemma_loop_fwd(v, a, e, cls, q2);
+                assert(pow_accepts(a, cls, k, w));
+            }
+        }
+    }
+    if exists|k: nat| #[trigger] pow_accepts(a, cls, k, w) {
+        let k = choose|k: nat| #[trigger] pow_accepts(a, cls, k, w);
+        if k == 0 {
+            assert(v.states[s].eps[1] == a.end);
+            assert(v_edge(v, cls, s, None, a.end));
+            lemma_lang_edge(v, cls, s, None, a.end);
+            assert(v.states[a.end].eps[0] == e);
+            assert(v_edge(v, cls, a.end, None, e));
+            lemma_lang_edge(v, cls, a.end, None, e);
+            lemma_lang_cat(v, cls, s, a.end, e, lab_word(None), lab_word(None));
+            assert(lab_word(None) + lab_word(None) =~= w);
+        } else {
+            lemma_loop_bwd(v, a, e, cls, k, w);
+            assert(v.states[s].eps[0] == a.start);
+            assert(v_edge(v, cls, s, None, a.start));
+            lemma_lang_edge(v, cls, s, None, a.start);
+            lemma_lang_cat(v, cls, s, a.start, e, lab_word(None), w);
+            assert(lab_word(None) + w =~= w);
+        }
     }
 }
